@@ -134,6 +134,15 @@ def _map_term(t, lm, bm):
         t["resume_arg"] = _map_place(t["resume_arg"], lm)
     elif k == "assert":
         t["cond"] = _map_operand(t["cond"], lm)
+        if isinstance(t.get("msg"), str):
+            # the message text names locals too (`BoundsCheck { len: .., index: copy _7 }`)
+            import re
+
+            def _ml(m):
+                r = lm(int(m.group(2)), [])
+                n = r if isinstance(r, int) else (r.get("l") if isinstance(r, dict) and not r.get("p") else None)
+                return m.group(0) if n is None else f"{m.group(1)} _{n}"
+            t["msg"] = re.sub(r"\b(copy|move) _(\d+)\b", _ml, t["msg"])
     return t
 
 
